@@ -1,10 +1,511 @@
-//! C18 — not built yet.
+//! C18 JSON delta and snapshot streams are well-formed and exact.
+//!
+//! Data sets are installed through the real `ValidationReport` → `SharedHistory::update` path
+//! (ROA/ASPA content under a generated trust anchor, router keys and optionally origins as SLURM
+//! assertions) and `/json-delta` is fetched through the real HTTP dispatcher. The body chunks are
+//! observed exactly as the stream produced them.
+
+use std::cell::RefCell;
+use std::collections::BTreeMap;
+use std::net::{IpAddr, Ipv4Addr};
+
+use proptest::prelude::*;
+use routinator::metrics::Metrics;
+use serde::{Deserialize, Serialize};
 
 use crate::core::*;
+use crate::fmtx::*;
+use crate::parsers::*;
+use crate::pay::*;
 
-pub const IMPLEMENTED: bool = false;
+#[derive(Serialize, Deserialize, Clone, Debug)]
+pub struct Step {
+    /// Number of fixed-width filler origins taken from this step's filler range.
+    pub fill: u32,
+    /// Filler range: fillers are indices `range * 5000 .. range * 5000 + fill`.
+    pub range: u8,
+    /// Additional items of all payload types.
+    pub extra: Vec<MItem>,
+    /// Route origins enter as SLURM assertions instead of ROA content.
+    pub origins_via_slurm: bool,
+}
 
-pub fn run(_ctx: &Ctx, _rep: &mut Report, _replay: Option<&serde_json::Value>) {
-    eprintln!("C18: check not implemented");
-    std::process::exit(2);
+#[derive(Serialize, Deserialize, Clone, Debug, PartialEq)]
+pub enum Ask {
+    /// `/json-delta` without query.
+    NoQuery,
+    /// Current session, serial = serial of the data set `back` versions ago (0 = current).
+    Back(u8),
+    /// Wrong session, current serial.
+    OtherSession,
+    /// Current session, a serial ahead of the current one.
+    Future(u8),
+}
+
+#[derive(Serialize, Deserialize, Clone, Debug)]
+pub struct Case {
+    pub history_size: u8,
+    pub steps: Vec<Step>,
+    pub ask: Ask,
+}
+
+/// Filler origin `i`: every field has a fixed printed width, so every filler renders to the same
+/// number of bytes.
+pub fn filler(i: u32) -> MOrigin {
+    let a = 100 + (i / 100) % 100;
+    let b = 100 + i % 100;
+    let hi = 100 + (i / 10_000) % 100;
+    MOrigin::new(IpAddr::V4(Ipv4Addr::new(hi as u8, a as u8, b as u8, 0)), 24, Some(24), 20_000 + i / 5000)
+}
+
+fn step_set(s: &Step) -> MSet {
+    let mut set = MSet::from_items(s.extra.iter().map(servable_item));
+    for i in 0..s.fill {
+        set.insert(MItem::Origin(filler(s.range as u32 * 5000 + i)));
+    }
+    set
+}
+
+fn install(kit: &Kit, served: &Served, step: &Step, set: &MSet) {
+    let origins: Vec<MOrigin> = set.origins.iter().cloned().collect();
+    let aspas: Vec<MAspa> = set.aspas.iter().map(|(c, p)| MAspa { customer: *c, providers: p.clone() }).collect();
+    let mut local = LocalSpec::default();
+    let mut pubs = PubSpec { tal_name: "ta".into(), origins: Vec::new(), aspas };
+    if step.origins_via_slurm {
+        local.origins = origins.into_iter().map(|o| (o, None)).collect();
+    } else {
+        pubs.origins = origins;
+    }
+    local.keys = set.keys.iter().cloned().map(|k| (k, None)).collect();
+    served.update(kit, &[pubs], &local, Metrics::new());
+}
+
+fn decode_item(v: &JVal) -> Result<MItem, String> {
+    let ty = v.get("type").and_then(|t| t.as_str()).ok_or("item without type")?;
+    let s = |k: &str| v.get(k).and_then(|x| x.as_str()).ok_or_else(|| format!("{} item: member {} missing", ty, k));
+    let count = v.members().len();
+    match ty {
+        "routeOrigin" => {
+            if count != 4 {
+                return Err(format!("routeOrigin item with {} members", count));
+            }
+            let p = parse_prefix(s("prefix")?)?;
+            let m = v.get("maxLength").and_then(|x| x.as_f64()).ok_or("maxLength missing")?;
+            if m.fract() != 0.0 || m < p.1 as f64 || m > if p.0.is_ipv4() { 32.0 } else { 128.0 } {
+                return Err(format!("maxLength {} invalid for {}/{}", m, p.0, p.1));
+            }
+            Ok(MItem::Origin(MOrigin { addr: p.0, len: p.1, max_len: m as u8, asn: parse_asn_strict(s("asn")?)? }))
+        }
+        "routerKey" => {
+            if count != 4 {
+                return Err(format!("routerKey item with {} members", count));
+            }
+            let ski = hex_decode(s("keyIdentifier")?)?;
+            let ski = <[u8; 20]>::try_from(ski.as_slice()).map_err(|_| "keyIdentifier is not 20 bytes".to_string())?;
+            Ok(MItem::Key(MKey { ski, asn: parse_asn_strict(s("asn")?)?, info: b64url_decode(s("keyInfo")?)? }))
+        }
+        "aspa" => {
+            if count != 3 {
+                return Err(format!("aspa item with {} members", count));
+            }
+            let provs = v.get("providerAsns").filter(|p| p.is_arr()).ok_or("providerAsns missing")?;
+            let mut pv = Vec::new();
+            for p in provs.items() {
+                pv.push(parse_asn_strict(p.as_str().ok_or("provider is not a string")?)?);
+            }
+            Ok(MItem::Aspa(MAspa { customer: parse_asn_strict(s("customerAsn")?)?, providers: pv }))
+        }
+        other => Err(format!("unknown item type {:?}", other)),
+    }
+}
+
+fn decode_list(v: Option<&JVal>, name: &str) -> Result<Vec<MItem>, String> {
+    let arr = v.filter(|a| a.is_arr()).ok_or_else(|| format!("member {} missing or not an array", name))?;
+    arr.items().iter().map(decode_item).collect()
+}
+
+fn sorted(mut v: Vec<MItem>) -> Vec<MItem> {
+    v.sort();
+    v
+}
+
+/// Observations about where the stream was cut, for the class histogram.
+fn chunk_classes(chunks: &[Vec<u8>], info: &mut CaseInfo) {
+    info.class(format!("chunks={}", chunks.len().min(4)));
+    if chunks.len() >= 2 {
+        if chunks.last().map(|c| c.as_slice()) == Some(b"\n  ]\n}\n") {
+            info.class("cut_before_footer");
+        }
+        if chunks[..chunks.len() - 1].iter().any(|c| c.ends_with(b"\"withdrawn\": [")) {
+            info.class("cut_after_separator");
+        }
+        if chunks[1..].iter().any(|c| c.starts_with(b"\n  ],\n  \"withdrawn\": [")) {
+            info.class("cut_before_separator");
+        }
+        if chunks[1..].iter().any(|c| c.first() == Some(&b',')) {
+            info.class("cut_between_items");
+        }
+        if chunks[1..].iter().any(|c| c.starts_with(b"\n    {") || c.starts_with(b"\n  {")) {
+            info.class("chunk_starts_with_first_item_of_list");
+        }
+    }
+}
+
+pub struct Env<'a> {
+    pub kit: &'a Kit,
+    pub rt: &'a tokio::runtime::Runtime,
+    pub ctx: &'a Ctx,
+}
+
+pub fn prop(env: &Env, case: &Case, info: &mut CaseInfo) -> Verdict {
+    let served = Served::new(env.ctx.scratch(), case.history_size.max(1) as usize, false);
+    // versions[i] = (serial, data set) for every distinct served version, oldest first
+    let mut versions: Vec<(u32, MSet)> = Vec::new();
+    for step in &case.steps {
+        let set = step_set(step);
+        install(env.kit, &served, step, &set);
+        let serial: u32 = served.history.read().serial().into();
+        match versions.last() {
+            Some((s, _)) if *s == serial => {
+                let last = versions.last_mut().unwrap();
+                if last.1 != set {
+                    return Verdict::fail("C18/setup/serial-not-advanced", format!("serial stayed {} although the data set changed", serial));
+                }
+            }
+            _ => versions.push((serial, set)),
+        }
+    }
+    let (cur_serial, cur_set) = versions.last().cloned().unwrap();
+    let session = served.history.read().session();
+    let (uri, asked): (String, Option<(u64, u32)>) = match &case.ask {
+        Ask::NoQuery => ("/json-delta".into(), None),
+        Ask::Back(b) => {
+            let idx = versions.len().saturating_sub(1 + *b as usize);
+            let s = versions[idx].0;
+            (format!("/json-delta?session={}&serial={}", session, s), Some((session, s)))
+        }
+        Ask::OtherSession => (format!("/json-delta?session={}&serial={}", session.wrapping_add(1), cur_serial), Some((session.wrapping_add(1), cur_serial))),
+        Ask::Future(n) => {
+            let s = cur_serial.wrapping_add(1 + *n as u32);
+            (format!("/json-delta?serial={}&session={}", s, session), Some((session, s)))
+        }
+    };
+    // The real decision and the real change set (C13 owns the decision; C18 the rendering).
+    let real_delta = match asked {
+        Some((sess, s)) if sess == session => served.history.read().delta_since(s.into()),
+        _ => None,
+    };
+    let resp = get(env.rt, &served.handler, &uri);
+    if resp.status != 200 {
+        return Verdict::fail("C18/status", format!("GET {} -> {}", uri, resp.status));
+    }
+    let body = resp.body();
+    chunk_classes(&resp.chunks, info);
+    let doc = match JVal::parse(&body) {
+        Ok(d) => d,
+        Err(e) => {
+            let cuts: Vec<usize> = resp.chunks.iter().map(|c| c.len()).collect();
+            return Verdict::fail("C18/invalid-json", format!("GET {}: body of {} bytes in chunks {:?} is not one JSON document: {}", uri, body.len(), cuts, e));
+        }
+    };
+    if !doc.is_obj() {
+        return Verdict::fail("C18/invalid-json", "top level is not an object");
+    }
+    let mut seen = std::collections::HashSet::new();
+    for (k, _) in doc.members() {
+        if !seen.insert(k.clone()) {
+            return Verdict::fail("C18/duplicate-member", format!("member {:?} appears twice", k));
+        }
+    }
+    let reset = match doc.get("reset") {
+        Some(JVal::Bool(b)) => *b,
+        _ => return Verdict::fail("C18/header/reset", "member reset missing or not a boolean"),
+    };
+    // clear-cut expectations straight from the manual
+    let must_reset = matches!(case.ask, Ask::NoQuery | Ask::OtherSession | Ask::Future(_));
+    let must_delta = matches!(case.ask, Ask::Back(0)) || (matches!(case.ask, Ask::Back(1)) && versions.len() >= 2);
+    if (must_reset && !reset) || (must_delta && reset) || (reset != real_delta.is_none()) {
+        return Verdict::fail("C18/wrong-form", format!("GET {} answered reset={} (delta available: {})", uri, reset, real_delta.is_some()));
+    }
+    if doc.get("session").and_then(|s| s.as_str()) != Some(session.to_string().as_str()) {
+        return Verdict::fail("C18/header/session", format!("session member {:?}, history session {}", doc.get("session"), session));
+    }
+    if doc.get("serial").and_then(|s| s.as_f64()) != Some(cur_serial as f64) {
+        return Verdict::fail("C18/header/serial", format!("serial member {:?}, current serial {}", doc.get("serial"), cur_serial));
+    }
+    if doc.get("generated").and_then(|s| s.as_f64()).is_none() || doc.get("generatedTime").and_then(|s| s.as_str()).is_none() {
+        return Verdict::fail("C18/header/generated", "generated / generatedTime missing");
+    }
+    let announced = match decode_list(doc.get("announced"), "announced") {
+        Ok(v) => v,
+        Err(e) => return Verdict::fail("C18/item-shape", format!("announced: {}", e)),
+    };
+    info.class(if reset { "form=reset" } else { "form=delta" });
+    let types = announced.iter().fold([false; 3], |mut t, i| {
+        t[match i {
+            MItem::Origin(_) => 0,
+            MItem::Key(_) => 1,
+            MItem::Aspa(_) => 2,
+        }] = true;
+        t
+    });
+    if types[1] {
+        info.class("announced_has_router_key");
+    }
+    if types[2] {
+        info.class("announced_has_aspa");
+    }
+    if reset {
+        if doc.get("withdrawn").is_some() || doc.get("fromSerial").is_some() {
+            return Verdict::fail("C18/reset-extra-member", "reset document has a withdrawn or fromSerial member");
+        }
+        if announced.is_empty() {
+            info.class("empty_announced");
+        }
+        info.nt(resp.chunks.len() >= 2 || announced.is_empty());
+        // the snapshot as the implementation holds it, and the model of what was installed
+        let snap = served.history.read().current().expect("current");
+        let real: Vec<MItem> = snap.payload().map(MItem::from_ref).collect();
+        if sorted(announced.clone()) != sorted(real) {
+            return Verdict::fail("C18/reset-items-mismatch", format!("GET {}: announced list ({} items) differs from the current snapshot", uri, announced.len()));
+        }
+        if sorted(announced) != sorted(cur_set.items()) {
+            return Verdict::fail("C18/reset-items-vs-installed", format!("GET {}: announced list differs from the installed data set", uri));
+        }
+        return Verdict::Pass;
+    }
+    let (_, from) = asked.unwrap();
+    if doc.get("fromSerial").and_then(|s| s.as_f64()) != Some(from as f64) {
+        return Verdict::fail("C18/header/fromSerial", format!("fromSerial member {:?}, requested serial {}", doc.get("fromSerial"), from));
+    }
+    let withdrawn = match decode_list(doc.get("withdrawn"), "withdrawn") {
+        Ok(v) => v,
+        Err(e) => return Verdict::fail("C18/item-shape", format!("withdrawn: {}", e)),
+    };
+    if announced.is_empty() {
+        info.class("empty_announced");
+    }
+    if withdrawn.is_empty() {
+        info.class("empty_withdrawn");
+    }
+    if withdrawn.iter().any(|i| matches!(i, MItem::Aspa(_))) {
+        info.class("withdrawn_has_aspa");
+    }
+    info.nt(resp.chunks.len() >= 2 || announced.is_empty() || withdrawn.is_empty());
+    let real = delta_actions(real_delta.as_ref().unwrap());
+    let real_ann: Vec<MItem> = real.iter().filter(|a| a.1).map(|a| a.0.clone()).collect();
+    let real_wd: Vec<MItem> = real.iter().filter(|a| !a.1).map(|a| a.0.clone()).collect();
+    if sorted(announced.clone()) != sorted(real_ann) {
+        return Verdict::fail("C18/announced-mismatch", format!("GET {}: announced list ({} items) differs from the change set's announcements", uri, announced.len()));
+    }
+    if sorted(withdrawn.clone()) != sorted(real_wd) {
+        return Verdict::fail("C18/withdrawn-mismatch", format!("GET {}: withdrawn list ({} items) differs from the change set's withdrawals", uri, withdrawn.len()));
+    }
+    // a client holding the version it asked about must arrive at the current data set
+    if let Some((_, old)) = versions.iter().find(|(s, _)| *s == from) {
+        let actions: Vec<(MItem, bool)> = withdrawn.into_iter().map(|i| (i, false)).chain(announced.into_iter().map(|i| (i, true))).collect();
+        match old.apply(&actions) {
+            Ok(res) if res == cur_set => {}
+            Ok(res) => {
+                let a: std::collections::BTreeSet<MItem> = res.items().into_iter().collect();
+                let b: std::collections::BTreeSet<MItem> = cur_set.items().into_iter().collect();
+                return Verdict::fail(
+                    "C18/client-result-mismatch",
+                    format!("GET {}: applying the document to version {} does not give the installed current data set; only in client result: {:?}; only in installed set: {:?}", uri, from, a.difference(&b).take(3).collect::<Vec<_>>(), b.difference(&a).take(3).collect::<Vec<_>>()),
+                );
+            }
+            Err(e) => return Verdict::fail("C18/client-apply-error", format!("GET {}: {}", uri, e)),
+        }
+    }
+    Verdict::Pass
+}
+
+//------------------------------------------------------------------------------------------
+// Generators
+
+/// ASPAs with long provider lists (an item of several kB) next to the small shared ones.
+fn big_aspa() -> impl Strategy<Value = MAspa> {
+    (prop::sample::select(vec![64496u32, 65000, 1]), prop::sample::select(vec![0usize, 1, 40, 700])).prop_map(|(c, n)| MAspa::new(c, (0..n as u32).map(|i| 100_000 + i * 7)))
+}
+
+fn extra_strategy() -> impl Strategy<Value = Vec<MItem>> {
+    prop_oneof![
+        3 => Just(Vec::new()),
+        4 => prop::collection::vec(item_strategy(), 0..=8),
+        2 => prop::collection::vec(prop_oneof![2 => item_strategy(), 1 => big_aspa().prop_map(MItem::Aspa), 1 => key_strategy().prop_map(MItem::Key)], 0..=40),
+    ]
+}
+
+/// Filler counts: small, or within a few items of a multiple of `per_chunk`.
+fn fill_strategy(per_chunk: u32) -> impl Strategy<Value = u32> {
+    prop_oneof![
+        3 => 0u32..4,
+        6 => (1u32..=2, -14i32..=3).prop_map(move |(q, d)| (q * per_chunk) as i32 + d).prop_map(|v| v.max(0) as u32),
+        1 => 0u32..(per_chunk * 2),
+    ]
+}
+
+fn step_strategy(per_chunk: u32) -> impl Strategy<Value = Step> {
+    (fill_strategy(per_chunk), 0u8..2, extra_strategy(), prop::bool::weighted(0.3)).prop_map(|(fill, range, extra, origins_via_slurm)| Step { fill, range, extra, origins_via_slurm })
+}
+
+fn case_strategy(per_chunk: u32) -> impl Strategy<Value = Case> {
+    (
+        1u8..=3,
+        prop::collection::vec(step_strategy(per_chunk), 1..=4),
+        prop_oneof![2 => Just(Ask::NoQuery), 6 => (0u8..4).prop_map(Ask::Back), 1 => Just(Ask::OtherSession), 1 => (0u8..3).prop_map(Ask::Future)],
+    )
+        .prop_map(|(history_size, steps, ask)| Case { history_size, steps, ask })
+}
+
+/// Measures the rendered size of one filler item and derives how many fit into one 64 000-byte
+/// chunk (both through the real handler).
+fn measure(env: &Env) -> Result<u32, String> {
+    let size_with = |n: u32| -> Result<usize, String> {
+        let served = Served::new(env.ctx.scratch(), 2, false);
+        let step = Step { fill: n, range: 0, extra: vec![], origins_via_slurm: false };
+        install(env.kit, &served, &step, &step_set(&step));
+        let r = get(env.rt, &served.handler, "/json-delta");
+        if r.status != 200 {
+            return Err(format!("measure: status {}", r.status));
+        }
+        Ok(r.body().len())
+    };
+    let (a, b, c) = (size_with(10)?, size_with(11)?, size_with(12)?);
+    if b - a != c - b || b <= a {
+        return Err(format!("filler items do not have a constant size: {} {} {}", a, b, c));
+    }
+    Ok((64_000 / (b - a)) as u32 + 1)
+}
+
+pub fn run(ctx: &Ctx, rep: &mut Report, replay: Option<&serde_json::Value>) {
+    rep.rule(
+        "sequences of 1..=4 data sets (fixed-width filler origins in counts within -14..+3 items of 1x/2x the measured per-chunk capacity, plus 0..=40 extra items of all payload types incl. ASPAs with 0/1/40/700 providers and router keys) installed through ValidationReport+SLURM into a history of size 1..=3, then one /json-delta request (no query / serial 0..3 versions back / other session / future serial) through the real dispatcher; a directed sweep places the cut at every item count around the chunk limit for the announced list, the withdrawn list and the snapshot; non-trivial = body delivered in >=2 chunks or an empty announced/withdrawn list; distinct by serialised case",
+    );
+    rep.assume("whether a delta or a reset is served for a retained/unknown serial is taken from SharedHistory::delta_since (C13 owns that decision); JSON is judged with serde_json");
+    rep.assume("ASPA and ROA content reaches the history through routinator's ValidationReport processor fed with a harness-made trust-anchor certificate (rpki validate_ta), router keys through SLURM assertions");
+    let kit = Kit::new();
+    let rt = runtime();
+    let env = Env { kit: &kit, rt: &rt, ctx };
+    if let Some(v) = replay {
+        let t: Tagged<Case> = serde_json::from_value(v.clone()).expect("replay");
+        run_case(ctx, rep, &t.sub, &t.case, |c, i| prop(&env, c, i));
+        return;
+    }
+    let per_chunk = match measure(&env) {
+        Ok(n) => n,
+        Err(e) => {
+            eprintln!("C18 preamble failed: {}", e);
+            std::process::exit(2);
+        }
+    };
+    rep.extra.insert("fillers_per_chunk".into(), serde_json::json!(per_chunk));
+    // Directed sweep: announced / withdrawn / snapshot sizes around the chunk limit.
+    let seen: RefCell<BTreeMap<String, u64>> = RefCell::new(BTreeMap::new());
+    let sweep = |rep: &mut Report, case: Case| {
+        if rep.violated() {
+            return;
+        }
+        run_case(ctx, rep, "sweep", &case, |c, i| {
+            let v = prop(&env, c, i);
+            for cl in &i.classes {
+                *seen.borrow_mut().entry(cl.clone()).or_default() += 1;
+            }
+            v
+        });
+    };
+    let window = ctx.tier.pick(-12i32..=2, -16i32..=4);
+    for d in window.clone() {
+        let n = (per_chunk as i32 + d).max(0) as u32;
+        // announced list ends near the limit, withdrawn list small / empty
+        for w in [0u32, 2] {
+            sweep(
+                rep,
+                Case {
+                    history_size: 2,
+                    steps: vec![Step { fill: w, range: 0, extra: vec![], origins_via_slurm: false }, Step { fill: n, range: 1, extra: vec![], origins_via_slurm: false }],
+                    ask: Ask::Back(1),
+                },
+            );
+        }
+        // withdrawn list ends near the limit (announced list empty or small)
+        for a in [0u32, 3] {
+            sweep(
+                rep,
+                Case {
+                    history_size: 2,
+                    steps: vec![Step { fill: n, range: 0, extra: vec![], origins_via_slurm: true }, Step { fill: a, range: 1, extra: vec![], origins_via_slurm: true }],
+                    ask: Ask::Back(1),
+                },
+            );
+        }
+        // snapshot ends near the limit
+        sweep(rep, Case { history_size: 1, steps: vec![Step { fill: n, range: 0, extra: vec![], origins_via_slurm: false }], ask: Ask::NoQuery });
+        // both lists near the limit
+        sweep(
+            rep,
+            Case {
+                history_size: 3,
+                steps: vec![Step { fill: n, range: 0, extra: vec![], origins_via_slurm: false }, Step { fill: (per_chunk as i32 + d / 2).max(0) as u32, range: 1, extra: vec![], origins_via_slurm: false }],
+                ask: Ask::Back(1),
+            },
+        );
+    }
+    // Fine sweep: the separator is ~25 bytes, so the end of the announced list is moved in steps
+    // of one ASPA provider (12 bytes) across the limit to cut right before and right after it.
+    for n in per_chunk.saturating_sub(3)..=per_chunk {
+        for p in 0u32..=14 {
+            let aspa = MItem::Aspa(MAspa::new(64496, (0..p).map(|i| 100_000 + i)));
+            sweep(
+                rep,
+                Case {
+                    history_size: 2,
+                    steps: vec![Step { fill: 1, range: 0, extra: vec![], origins_via_slurm: false }, Step { fill: n, range: 1, extra: vec![aspa], origins_via_slurm: false }],
+                    ask: Ask::Back(1),
+                },
+            );
+        }
+    }
+    let seen = seen.into_inner();
+    for needed in ["cut_before_footer", "cut_after_separator", "cut_before_separator", "cut_between_items", "empty_announced", "empty_withdrawn"] {
+        if !seen.contains_key(needed) && !rep.violated() {
+            eprintln!("C18: directed sweep never produced class {} (classes seen: {:?})", needed, seen);
+            std::process::exit(2);
+        }
+    }
+    run_prop(ctx, rep, "seq", ctx.tier.pick(1200, 30_000), case_strategy(per_chunk), |c, i| prop(&env, c, i));
+    // Transport leg: the same documents over routinator's real HTTP listener (chunked transfer
+    // coding on a loopback socket) must be byte-identical to what the dispatcher streamed.
+    let Some((served, addr)) = spawn_listener(ctx) else {
+        eprintln!("C18: cannot start loopback listener");
+        std::process::exit(2);
+    };
+    run_prop(ctx, rep, "tcp", ctx.tier.pick(40, 600), (step_strategy(per_chunk), prop_oneof![Just(Ask::NoQuery), Just(Ask::Back(0)), Just(Ask::Back(1))]), |(step, ask), info| {
+        let before: u32 = served.history.read().serial().into();
+        install(env.kit, &served, step, &step_set(step));
+        let after: u32 = served.history.read().serial().into();
+        let session = served.history.read().session();
+        let uri = match ask {
+            Ask::NoQuery => "/json-delta".to_string(),
+            Ask::Back(0) => format!("/json-delta?session={}&serial={}", session, after),
+            _ => format!("/json-delta?session={}&serial={}", session, before),
+        };
+        let direct = get(env.rt, &served.handler, &uri);
+        let (status, _, body) = match http_request(addr, "GET", &uri, &[], &[]) {
+            Ok(x) => x,
+            Err(e) => return Verdict::Dropped(format!("tcp_transport_error:{}", e.split(':').next().unwrap_or(""))),
+        };
+        info.class(format!("tcp_chunks={}", direct.chunks.len().min(4)));
+        info.nt(direct.chunks.len() >= 2);
+        if status != 200 || direct.status != 200 {
+            return Verdict::fail("C18/tcp/status", format!("GET {} -> {} over TCP, {} in process", uri, status, direct.status));
+        }
+        if body != direct.body() {
+            return Verdict::fail("C18/tcp/body-differs", format!("GET {}: {} bytes over TCP, {} bytes from the dispatcher", uri, body.len(), direct.body().len()));
+        }
+        if let Err(e) = JVal::parse(&body) {
+            return Verdict::fail("C18/invalid-json", format!("GET {} over TCP: {}", uri, e));
+        }
+        Verdict::Pass
+    });
 }
